@@ -779,6 +779,12 @@ func loadLuaCorpus(prop string) []string {
 }
 
 func runC03M(run *Run) {
+	if !replayMode.on || wholeRun {
+		for _, line := range c03ThreadEnv() {
+			run.Failures = append(run.Failures, Failure{CaseIdx: -9060, Kind: "CRASH", Line: line, Reply: line, Lines: []string{line}})
+		}
+		run.Extra["thread_environment_programs"] = len(c03ThreadEnvProgs)
+	}
 	nCells, nRaw, nProg, maxOps := 6000, 4000, 1200, 40
 	if run.Tier == "thorough" {
 		nCells, nRaw, nProg, maxOps = 60000, 40000, 6000, 90
